@@ -186,6 +186,20 @@ def gen_pva(rng, with_rates):
     d = rng.standard_normal(3)
     v = spd * d / np.linalg.norm(d)
     rph = [rng.uniform(-180, 180), rng.uniform(-85, 85), rng.uniform(-180, 180)]
+    # the closed ends of the quantified domain themselves and the cardinal attitudes
+    erng = np.random.Generator(np.random.PCG64(int(rng.integers(0, 2 ** 31))))
+    if erng.random() < 0.15:
+        k = int(erng.integers(0, 5))
+        if k == 0:
+            lat = float(erng.choice([-85.0, 85.0, 0.0]))
+        elif k == 1:
+            rph[1] = float(erng.choice([-85.0, 85.0, 0.0]))
+        elif k == 2:
+            rph[0], rph[2] = float(erng.choice([-180.0, 180.0, 0.0, 90.0, -90.0])), float(erng.choice([-180.0, 180.0, 0.0, 90.0, -90.0]))
+        elif k == 3:
+            v = np.zeros(3) if erng.random() < 0.5 else 300.0 * np.eye(3)[int(erng.integers(0, 3))] * float(erng.choice([-1, 1]))
+        else:
+            alt = float(erng.choice([0.0, 15000.0]))
     vals = [lat, lon, alt, *v, *rph]
     idx = LLA + VEL + RPH
     if with_rates:
